@@ -27,10 +27,10 @@ LEVEL = "model_checking"
 ENGINE = "E1"
 TECHNIQUE = (
     "bounded exhaustive fault planting: every IR program x every insertion position x every raising leaf / "
-    "warning literal, executed on the real Template/TemplateLookup through five construction paths and compared "
+    "warning literal, executed on the real Template/TemplateLookup through six construction paths and compared "
     "frame by frame with a reference interpreter of the IR"
 )
-PATHS = ["string", "file", "lookup", "moddir", "moddir2"]
+PATHS = ["string", "file", "lookup", "moddir", "moddir2", "tmodlink"]
 ACTIONS = ["always", "once", "error"]
 PRINCIPAL = ["r_expr", "r_code2"]
 
@@ -39,17 +39,17 @@ CORE_KINDS = [
     "if", "for", "forl", "defb", "defa", "block", "ablock", "calltag", "include", "ns", "inh",
 ]
 
-QUICK2_KINDS = ["c3", "mod", "if", "forl", "defb", "block", "ablock", "calltag", "include", "inh"]
+QUICK2_KINDS = ["c3", "if", "forl", "defb", "block", "calltag", "include"]
 
 W3_KINDS = ["c3", "mod", "if", "forl", "defb", "block", "calltag", "include"]
-WARN2_KINDS = QUICK2_KINDS + ["t2", "ns"]
+WARN2_KINDS = QUICK2_KINDS + ["mod", "ablock", "inh", "t2", "ns"]
 
 BOUNDS = {
     "quick": {
-        "raise_full_product": "weight<=1 over all 32 kinds, LF: every position x 13 raise kinds x 5 paths",
-        "raise_rotated": "weight 2 over 10 kinds (QUICK2_KINDS) LF and weight<=1 over all kinds CRLF: every (program,position,kind) "
-        "on one rotating path + <% %> line 2 on all 5 paths + HTML page for the 2 principal kinds and format_exceptions on one path",
-        "warn": "weight<=1 (all kinds, LF) and weight 2 over {ablock, defb}: every position x 8 warning plants x 5 paths x {always,once,error}",
+        "raise_full_product": "weight<=1 over all 32 kinds, LF: every position x 13 raise kinds x 6 paths",
+        "raise_rotated": "weight 2 over 7 kinds (QUICK2_KINDS) LF and weight<=1 over all kinds CRLF: every (program,position,kind) "
+        "on one rotating path; plus weight 2 over {t1, include, inh} (text before an include / inherit chain) + HTML page for the 2 principal kinds and format_exceptions on one path",
+        "warn": "weight<=1 (all kinds, LF) and weight 2 over {ablock, defb}: every position x 8 warning plants x 6 paths x {always,error}, 'once' on one rotating path",
         "recompiled_module_file": "weight<=1 all kinds LF: every position x {${1/0}, <% %> line 2, <%! %> function, 4 warning plants} x "
         "{same lookup with filesystem_checks, new lookup on the same module directory}: version 1 -> observe -> 2 lines inserted "
         "at the top of every file, 10 s later -> reload in the same process -> observe",
@@ -61,9 +61,9 @@ BOUNDS = {
         "paths": PATHS,
     },
     "thorough": {
-        "raise_full_product": "weight<=2 over all 32 kinds, LF: every position x 13 raise kinds x 5 paths",
+        "raise_full_product": "weight<=2 over all 32 kinds, LF: every position x 13 raise kinds x 6 paths",
         "raise_rotated": "weight 3 over 8 kinds (W3_KINDS) LF; weight<=2 over the 21 core kinds CRLF (rotating path + principal kinds on all paths)",
-        "warn": "weight<=1 all kinds LF and CRLF, weight 2 over 12 kinds (WARN2_KINDS) LF: every position x 8 warning plants x 5 paths x {always,once,error}",
+        "warn": "weight<=1 all kinds LF and CRLF, weight 2 over 12 kinds (WARN2_KINDS) LF: every position x 8 warning plants x 6 paths x {always,once,error}",
         "recompiled_module_file": "as quick, over weight<=2 (QUICK2_KINDS) LF and weight 1 all kinds LF+CRLF",
         "failed_construction_then_retry": "as quick, over weight<=2 (QUICK2_KINDS) and weight 1 all kinds",
         "raise_kinds": c12_ir.RAISE_KINDS,
@@ -84,6 +84,10 @@ RULE = (
 )
 ASSUMPTIONS = [
     "CPython eval/exec/compile (with line offsets), traceback.extract_tb and the warnings module are trusted",
+    "a template line ends at \"\\n\" only: the filler words of every seed carry one character that str.splitlines() would also "
+    "split at (FF, U+2028, NEL, FS); the reported source line is compared with source.split('\\n')[line-1]",
+    "construction paths: string, file, lookup, moddir (TemplateLookup whose module_directory goes through a symbolic link), "
+    "moddir2 (plain module directory, re-opened), tmodlink (Template(filename=, module_directory=via a symbolic link))",
     "the reference interpreter (mc/c12_ir.py, ~250 lines) implements DESIGN Appendix A for the enabled constructs only; "
     "its expected outputs are additionally validated against every unplanted program on every path",
     "frames of forwarding stubs (bare-name call of a top-level def) are optional in the expected chain and may carry the "
@@ -161,8 +165,23 @@ def build(low, path, d, kw=None):
     elif path == "lookup":
         b.lookup = TemplateLookup(directories=[d], **kw)
         b.main = b.lookup.get_template(low.main)
+    elif path == "tmodlink":
+        # Template(filename=, module_directory=) whose module directory is reached through a symbolic link
+        os.makedirs(os.path.join(d, "_releases", "42"))
+        os.symlink(os.path.join("_releases", "42"), os.path.join(d, "_current"))
+        m = os.path.join(d, "_current", "mods")
+        lk = TemplateLookup(directories=["/"], module_directory=m, **kw) if len(low.files) > 1 else None
+        b.lookup = lk
+        b.main = Template(filename=d + low.main, module_directory=m, lookup=lk, **kw)
+        for uri in low.files:
+            b.names[uri] = {d + uri}
     elif path in ("moddir", "moddir2"):
         m = os.path.join(d, "_mods")
+        if path == "moddir":
+            # the module directory of the lookup is spelled through a symbolic link (current -> releases/42)
+            os.makedirs(os.path.join(d, "_releases", "42"))
+            os.symlink(os.path.join("_releases", "42"), os.path.join(d, "_current"))
+            m = os.path.join(d, "_current", "mods")
         if path == "moddir2":
             with warnings.catch_warnings():
                 warnings.simplefilter("ignore")
@@ -482,7 +501,7 @@ class Runner:
         self.n = 0
         self.ctx = c12_env.base_ctx(seed)
         self.rctx = c12_env.resolve_ctx(self.ctx)
-        self.allpaths_both = True  # rotated scheme: both principal kinds on all paths (quick: only <% %> line 2)
+        self.allpaths_both = True  # rotated scheme: the principal kinds on all paths (thorough only)
         sys.dont_write_bytecode = True
 
     def casedir(self):
@@ -819,6 +838,7 @@ def tier_spec(tier):
             ("warn-w2-closures", [2], ["ablock", "defb"], ["\n"], "warn"),
             ("hist-w1", [0, 1], A, ["\n"], "hist"),
             ("retry-w1", [0, 1], A, ["\n"], "retry"),
+            ("rot-w2-text-chain", [2], ["t1", "include", "inh"], ["\n"], "rotated"),
         ]
     return [
         ("full-w2", [0, 1, 2], A, ["\n"], "full"),
@@ -827,9 +847,9 @@ def tier_spec(tier):
         ("warn-w1", [0, 1], A, ["\n"], "warn"),
         ("warn-w2", [2], WARN2_KINDS, ["\n"], "warn"),
         ("warn-w1-crlf", [0, 1], A, ["\r\n"], "warn"),
-        ("hist-w2", [0, 1, 2], Q, ["\n"], "hist"),
+        ("hist-w2", [0, 1, 2], Q + ["mod", "ablock", "inh"], ["\n"], "hist"),
         ("hist-w1", [1], A, ["\n", "\r\n"], "hist"),
-        ("retry-w2", [0, 1, 2], Q, ["\n"], "retry"),
+        ("retry-w2", [0, 1, 2], Q + ["mod", "ablock", "inh"], ["\n"], "retry"),
         ("retry-w1", [1], A, ["\n"], "retry"),
     ]
 
@@ -916,8 +936,10 @@ def run_program(r, body, pi, nl, scheme):
                 st.states += 1
                 if low.plant_info["warn"][0][1][0] > 1:
                     st.nontrivial += 1
-                for path in PATHS:
+                for pj, path in enumerate(PATHS):
                     for action in ACTIONS:
+                        if action == "once" and not r.allpaths_both and pj != (pi + si) % len(PATHS):
+                            continue
                         r.run_warn(body, nl, si, kind, path, action, low=low, ref=ref)
             continue
         rot = (pi + si) % len(PATHS)
@@ -928,7 +950,7 @@ def run_program(r, body, pi, nl, scheme):
             if ref[0] == "raise" and (low.plant_info["line"] > 1 or len(ref[2]) > 1):
                 st.nontrivial += 1
             principal = kind in PRINCIPAL
-            if scheme == "full" or (principal and (r.allpaths_both or kind == "r_code2")):
+            if scheme == "full" or (principal and r.allpaths_both):
                 paths = PATHS
             else:
                 paths = [PATHS[(rot + ki) % len(PATHS)]]
@@ -985,7 +1007,7 @@ def corpus(limit=400):
     for body in progs:
         if len(out) >= limit:
             break
-        low = c12_ir.lower(body, "\n", None, None, 0)
+        low = c12_ir.lower(body, "\n", None, None, 0, 0, c12_env.PLAIN_WORD)
         ref = c12_ir.reference(low, ctx)
         out.append(
             {
